@@ -11,12 +11,14 @@ for k in sorted(kf, key=lambda k: (k["property"], k["status"])):
     what = re.sub(r"^fixed: property=\S+ \S+ ", "", k["what"])
     rows.append(f"| {k['property']} | {k['status']} | {k.get('commit','—')} | {cell(what[:420])} |")
 ft = "\n".join(rows)
-rows = ["| seeded change | breaks | needs, to manifest | caught by (tier: exit, violations, with failing input) |", "|---|---|---|---|"]
+rows = ["| seeded change | breaks | needs, to manifest | on first encounter | now caught by (check:tier: exit, violations, with failing input) |", "|---|---|---|---|---|"]
 for d in sorted(glob.glob(os.path.join(ROOT, "seeded", "*", "meta.json"))):
     m = json.load(open(d)); sid = os.path.basename(os.path.dirname(d))
     cb = m.get("caught_by") or {}
     c = "; ".join(f"{k}: exit {v['exit']}, {v['violations']} viol., {v['with_failing_input']} with input" for k, v in cb.items()) or "not run yet"
-    rows.append(f"| `seeded/{sid}` {cell(m['title'][:110])} | {m['property']} | {cell(m['needs_to_manifest'][:200])} | {cell(c)} |")
+    fe = m.get('first_encounter', '?')
+    fe = 'missed' if fe.startswith('MISSED') else ('weak: ' + fe.split('weakly: ')[1] if 'weakly' in fe else ('caught' if fe.startswith('caught') else '?'))
+    rows.append(f"| `seeded/{sid}` (round {m.get('round','?')}) {cell(m['title'][:110])} | {m['property']} | {cell(m['needs_to_manifest'][:200])} | {fe} | {cell(c)} |")
 st = "\n".join(rows)
 # per-property status
 props = [json.loads(l) for l in open(os.path.join(ROOT, "properties.jsonl"))]
